@@ -36,6 +36,8 @@ def extra_family():
         fam.append(dict(name=name, spec=spec, ranges=[], unbounded=[], inputs=W.constant_cells(spec),
                         cells=W.all_cells(spec), tags=[]))
     add('bigvals', S({'A1': 2000000, 'B1': '=A1*2', 'C1': '=B1+0.5', 'D1': '=C1-A1'}))
+    # results far below 1e-8: the default tolerance is relative, a stored 5e-9 altered to 9e-9 is a mismatch
+    add('tiny', S({'A1': 2e-9, 'A2': 3e-9, 'B1': '=A1+A2', 'B2': '=B1*2', 'B3': '=B1*1000000000', 'B4': '=A1-A2'}))
     add('two_sheet_formulas', {'sheets': {'Report': {'A1': '=Data!B1+1', 'A2': '=SUM(Data!A1:B2)', 'A3': '=A1&"|"'},
                                           'Data': {'A1': 10, 'B1': '=A1*2', 'A2': 3, 'B2': '=A2+B1'}}, 'active': 'Report'})
     return fam
@@ -48,11 +50,13 @@ def perturbations(value, tol):
     if k == 'number':
         if t is None:
             yield 'num*1.01+1', value * 1.01 + 1, True
+            if value != 0:
+                yield 'num*1.8', value * 1.8, True        # 80 % off at the value's own magnitude, whatever that is
         else:
             yield 'num+2tol', value + 2 * t, True
             yield 'num-2tol', value - 2 * t, True
             yield 'num+0.4tol', value + 0.4 * t, False
-        if value != 0 and (t is None or abs(value) > 2 * t):
+        if value != 0 and (abs(value) > 1e-6 if t is None else abs(value) > 2 * t):      # (the default rule has an absolute floor of 1e-8 next to zero)
             yield 'num->0', 0, True
         yield 'num->text', 'oops', True
         yield 'num->error', '#N/A', True
@@ -288,7 +292,7 @@ def run(ctx):
     tols = TOLS if ctx.thorough else [None, 0.01]
     if not ctx.thorough:
         keep = ('chain', 'diamond', 'fan_range', 'nested', 'two_sheets', 'names', 'cse', 'types', 'if', 'errformula',
-                'mixed_range', 'bigvals', 'range_of_formulas', 'zero_results', 'unbounded', 'lookup', 'sheet_range_name', 'unbounded_formulas', 'single_row_unbounded', 'cse2', 'two_sheet_formulas')
+                'mixed_range', 'bigvals', 'range_of_formulas', 'zero_results', 'unbounded', 'lookup', 'sheet_range_name', 'unbounded_formulas', 'single_row_unbounded', 'cse2', 'two_sheet_formulas', 'tiny')
         fams = [f for f in fams if f['name'] in keep]
     k = ctx.seed % len(fams)
     jobs = [(f, tols) for f in fams[k:] + fams[:k]]
